@@ -455,8 +455,8 @@ def join_model(eng, sep, x, st, fr, k):
             j = z3.Int("j!jn")
             allstr = z3.ForAll([j], z3.Implies(z3.And(0 <= j, j < n), PyVal.is_StrV(z3.Select(el, j))))
             def ok(s):
-                arr = fresh("jstr", z3.ArraySort(IntS, StrS))
-                s.assume(z3.ForAll([j], z3.Implies(z3.And(0 <= j, j < n), z3.Select(arr, j) == PyVal.sval(z3.Select(el, j)))))
+                # the str view of the element array as a term of the array itself (the same list gives the same term)
+                arr = z3.Lambda([j], PyVal.sval(z3.Select(el, j)))
                 return k(s, SStr(eng.join_term(sep.t, arr, n)))
             if st.spec:
                 return ok(st)
@@ -482,6 +482,13 @@ def join_model(eng, sep, x, st, fr, k):
         for p in parts[1:]:
             t = z3.Concat(t, p)
         return k(st, SStr(t))
+    if isinstance(x, SDyn):
+        # a dynamic argument: a list / tuple object is joined element-wise; a str or anything else is outside the model
+        seq = z3.And(PyVal.is_RefV(x.t), z3.Or([eng.cls_term(st, PyVal.rval(x.t)) == eng.class_ids[c] for c in ("list", "tuple")]))
+        if not st.spec:
+            eng.oblige(st, "type", "join-arg-sequence", seq, "str.join on a dynamic value that is not known to be a list or tuple")
+            st.assume(seq)
+        return join_model(eng, sep, SRef(PyVal.rval(x.t), "list:any"), st, fr, k)
     raise _err(f"join over {x!r}")
 
 
